@@ -15,6 +15,7 @@ import EG.Model.CheckedStyledScanline
 import EG.Model.CheckedSegment
 import EG.Model.ThickPolyline
 import EG.Model.CheckedFont
+import EG.Model.CheckedData
 namespace EG.Driver
 open EG
 
@@ -568,6 +569,12 @@ def handleChk2 (kernel : String) (t : Toks) : Option String :=
     let (p0, t) := t.pt; let (p1, t) := t.pt; let (p2, t) := t.pt
     let (w, t) := t.nat; let (n, _) := t.nat
     (polyDraw p0 p1 p2 w 9 n).out fmtCalls
+  | "drawsub" =>
+    let (via, t) := t.nat; let (area, _) := t.rect
+    let im : Img.ImageRaw := ⟨1, .le, [], ⟨5, 3⟩⟩
+    some (orPanic2 (fun (r : Option (Nat × Nat)) => s!"calls={if r.isSome then 1 else 0}")
+      (if via == 0 then Chk.drawSubImageSkips im area
+       else Chk.subDrawSubImageSkips im ⟨⟨1, 1⟩, ⟨3, 2⟩⟩ area))
   | "glyph" =>
     let (imgW, t) := t.nat; let (imgH, t) := t.nat; let (cw, t) := t.nat; let (ch, t) := t.nat
     let (sp, t) := t.nat; let (bl, t) := t.nat; let (ulOff, t) := t.nat; let (ulH, t) := t.nat
